@@ -517,3 +517,35 @@ def root_name_of(e):
     while isinstance(e, (ast.Attribute, ast.Subscript, ast.Call)):
         e = e.func if isinstance(e, ast.Call) else e.value
     return e.id if isinstance(e, ast.Name) else None
+
+
+@rule(P, "C07.12", "T1", "a dry run is refused in local mode, where the jobs would be started at once", min_obligations=1)
+def c07_12(ctx, r):
+    """`submit-jobs --local --dry-run`: the local branch of JobSubmitter.submit_jobs runs the jobs itself, there is no dry-run form of it.
+    The only thing between that option pair and started jobs is the refusal in make_submitter_params: some exit (sys.exit / raise) must be
+    guarded by exactly `dry_run` and the local-mode test, and the local-mode test must be one that can be true."""
+    fn = ctx.fn("common.make_submitter_params", "C07.12")
+    if "dry_run" not in fn.params or "local" not in fn.params:
+        raise AnalysisError("C07.12", f"make_submitter_params parameters are {fn.params}")
+    exits = []
+    for n in ctx.cfg(fn).nodes:
+        a = n.ast
+        if n.kind != "stmt":
+            continue
+        if isinstance(a, ast.Raise) or (isinstance(a, ast.Expr) and isinstance(a.value, ast.Call) and ctx.src(a.value.func) in ("sys.exit", "exit")):
+            exits.append(n)
+    if len(exits) < 2:
+        raise AnalysisError("C07.12", f"{len(exits)} refusing exits in make_submitter_params")
+
+    def local_test(f):
+        return f == "local" or ("hpc_type" in f and "HpcType.LOCAL" in f and "==" in f)
+
+    ok = False
+    for n in exits:
+        pos = {f for f, p in guard_forms(ctx, fn, n) if p}
+        neg = {f for f, p in guard_forms(ctx, fn, n) if not p}
+        if "dry_run" in pos and any(local_test(f) for f in pos) and not neg and all(f == "dry_run" or local_test(f) for f in pos):
+            ok = True
+    r.check(ok, "an exit of make_submitter_params is guarded by exactly {local mode, dry_run}", key_of(fn, "local dry run refused"), fn.loc(fn.node),
+            "no exit of make_submitter_params is guarded by exactly `local and dry_run` (or the equivalent `hpc_type == HpcType.LOCAL and dry_run`): `submit-jobs --local --dry-run` goes on to the "
+            "local branch of submit_jobs, which has no dry-run form and starts every job", "With dry-run enabled ... nothing is handed to the HPC and no job is started")
